@@ -743,6 +743,10 @@ func (ex *Exec) afterCallClauses(fr *Frame, st *State, c *ssa.CallCommon, ret Va
 			env.vars[fmt.Sprintf("arg%d", k)] = SVal{V: fr.val(a), T: a.Type()}
 		}
 		v := env.eval(cl.Expr)
+		if v.Lit != nil {
+			st.vars["gl!"+cl.Label] = bigLit(v.Lit)
+			continue
+		}
 		sc, ok := v.V.(Sc)
 		if !ok {
 			ex.cx.unsup("aftercall %s: value is not a scalar", cl.Label)
